@@ -78,6 +78,40 @@ def gen_scenario(rng, focus=None, big=False) -> Scenario:
                     managed=managed, abort_drops=abort_drops, calls=tuple(calls), sched=tuple(sched))
 
 
+def oracle_only_variant(rng, sc: Scenario) -> Scenario:
+    """Adds features that the Lean model does not have (judged by the oracles only)."""
+    import dataclasses
+    kw = {}
+    kinds = rng.sample(["between", "abort", "exit", "midpull", "probe"], rng.choice([1, 1, 2]))
+    calls = list(sc.calls)
+    if "between" in kinds and len(calls) > 1:
+        kw["between"] = tuple(tuple(rng.randrange(3) for _ in range(rng.choice([0, 1, 1, 2]))) for _ in range(len(calls) + 1))
+        kw["abort_drops"] = False
+    if "abort" in kinds:
+        kw["abort_deliver"] = tuple(rng.randrange(3) for _ in range(rng.choice([1, 1, 2])))
+    if "exit" in kinds and sc.ra != 0:
+        k = rng.randrange(len(calls))
+        c = calls[k]
+        cons = list(c.cons) or [1]
+        cons.insert(rng.randrange(len(cons) + 1), 6)
+        if rng.random() < 0.7:
+            cons.append(4)
+        calls[k] = dataclasses.replace(c, cons=tuple(cons))
+        kw["managed"] = True
+    if "midpull" in kinds and sc.ra != 0:
+        k = rng.randrange(len(calls))
+        c = calls[k]
+        cons = [o for o in c.cons if o not in (2, 3)] or [1]
+        cons.insert(rng.randrange(len(cons) + 1), 5)
+        calls[k] = dataclasses.replace(c, cons=tuple(cons), fail=(), iterfail=-1)
+        kw["midpull_close"] = (k, rng.choice([1, 1, 2, 3]))
+        kw["sched"] = tuple(e if e else (0,) for e in (sc.sched or ((0,),) * 6))
+    if "probe" in kinds and sum(c.n for c in calls) <= 40:
+        kw["probe_wait"] = True
+    out = dataclasses.replace(sc, calls=tuple(calls), **kw)
+    return out if out.oracle_only() else dataclasses.replace(out, probe_wait=True)
+
+
 # ------------------------------------------------------------------ oracles on the implementation's log
 
 
@@ -151,7 +185,7 @@ def oracle(sc: Scenario, run: ctl.Run, props):
         raised = final[6:] if final.startswith("raise ") else None
         clean = not failing and iterfail_id is None
         # was the call cut short by the consumer?
-        cut = final in ("closed", "dropped")
+        cut = final in ("closed", "dropped") or 6 in call.cons or "exit" in evs
         recalled_ok = any(e == "recall-ok" for e in evs)
         pre = ""  # (before fix 1724bf3 this carried the F17 window label, see corpus/m1)
         foreign = [v for v in got if v not in set(ids)]
@@ -169,7 +203,10 @@ def oracle(sc: Scenario, run: ctl.Run, props):
             bad.append(("C04", "reusable-after-failure:RuntimeError", cno))
             continue
         timeouts_possible = sc.timeout >= 0
-        if raised is None and not cut:
+        abandoned_block = 6 in call.cons or "exit" in evs  # the consumer left the with-block with the generator alive
+        if abandoned_block:
+            pass
+        elif raised is None and not cut:
             # normal completion: values and exactly-once
             may_fail = [f for f in failing if f in effective]
             if may_fail or iterfail_id is not None:
@@ -218,6 +255,20 @@ def oracle(sc: Scenario, run: ctl.Run, props):
             ci = [x for x in comp if x in set(yields)]
             if ci != yields and raised is None and not recalled_ok:
                 bad.append(("C16", "unordered-not-completion-order", dict(call=cno, yields=yields, completions=comp)))
+        # ---- C04 timeout: no completion at all for more than `timeout` ticks while the caller waits for a batch of this call
+        if sc.timeout >= 0 and run.max_idle_with_parked.get(cno, 0) >= sc.timeout + 2 and raised is None and not cut:
+            bad.append(("C04", "timeout-not-raised", dict(call=cno, idle_ticks=run.max_idle_with_parked.get(cno), timeout=sc.timeout)))
+        # ---- C01: what the caller would have seen had it evaluated its wait predicate in the middle of a callback
+        if clean and not cut:
+            idset = set(ids)
+            for (pos, c_, where, off) in run.early_exit_seen:
+                if c_ != cno:
+                    continue
+                later = [e for e in log[pos:] if e.startswith("exec ") and int(e.split()[1]) in idset]
+                if later:
+                    bad.append(("C01", "retrieval-loop-can-exit-before-all-tasks-completed",
+                                dict(call=cno, at=f"{where}+{off}", tasks_still_to_run=len(later))))
+                    break
         # ---- C09 look-ahead
         if sc.pd_mode == 1:
             first_out = next((i for i, e in enumerate(evs) if e.startswith(("yield", "ret", "stop"))), len(evs))
@@ -227,63 +278,55 @@ def oracle(sc: Scenario, run: ctl.Run, props):
                     break
         else:
             pulled = completed = 0
-            start_done = False
             c_during_start = 0
             max_la = 0
-            fail_seen = False
-            closed_seen = False
+            fail_seen = closed_seen = abort_seen = False
             parked = 0
             max_parked = 0
-            parked_after_start = None
-            in_start = True
+            # `_start` is over at the latest when the caller first sleeps in the retrieval loop (or pulls results)
+            call_off = log.index(f"call {cno}") + 1 if f"call {cno}" in log else 0
+            start_end = run.first_sleep_at.get(cno, 10**9) - call_off
+            idset = set(ids)
             for i, e in enumerate(evs):
+                if e == "next":
+                    start_end = min(start_end, i)
                 if e.startswith("pull ") or e.startswith("pull-raise"):
                     if e.startswith("pull "):
                         pulled += 1
-                    if fail_seen:
-                        bad.append(("C09", "pull-after-failure", dict(call=cno, ev=e)))
-                        fail_seen = False
-                    if closed_seen:
-                        bad.append(("C09", "pull-after-close", dict(call=cno, ev=e)))
-                        closed_seen = False
-                    if " @cb" not in e and not in_start:
-                        pass
+                    if fail_seen or closed_seen or abort_seen:
+                        j = i
+                        while j > 0 and evs[j - 1].startswith("pull") and evs[j - 1].endswith("@cb"):
+                            j -= 1
+                        if "close-during-pull" in evs[:i] and evs[j - 1] == "closed":
+                            sig = "pull-after-close-within-running-slice"
+                        elif fail_seen:
+                            sig = "pull-after-failure"
+                        else:
+                            sig = "pull-after-close"
+                        bad.append(("C09", sig, dict(call=cno, ev=e)))
+                        fail_seen = closed_seen = abort_seen = False
                 elif e.startswith("submit"):
                     parked += 1
                     max_parked = max(max_parked, parked)
-                    if " @cb" not in e:
-                        in_start = True
                 elif e.startswith("complete"):
-                    batch = ids_of(e)
-                    mine = [t for t in batch if t in set(ids)]
+                    mine = [t for t in ids_of(e) if t in idset]
                     if mine:
                         parked -= 1
-                        if in_start and not start_done:
+                        if i < start_end:
                             c_during_start += 1
-                        # completed tasks: those executed successfully
-                        k = 0
-                        for t in mine:
-                            k += 1
-                            if t in failing:
-                                # the callback of this batch registers the failure: from the end of this
-                                # delivery on, no item may be taken
-                                fail_seen_pending = True
-                                break
-                        else:
-                            fail_seen_pending = False
-                        completed += len(mine) if not fail_seen_pending else 0
-                        if fail_seen_pending:
-                            # pulls inside this very callback cannot happen (it returns before dispatching)
+                        if any(t in failing for t in mine):
+                            # its callback registers the failure: from the end of this delivery on, no item may be taken
                             fail_seen = True
-                elif e.startswith(("yield", "stop", "ret", "raise")):
-                    start_done = True
-                    in_start = False
+                        else:
+                            completed += len(mine)
                 elif e in ("closed", "dropped"):
                     closed_seen = True
+                elif e.startswith("abort"):
+                    abort_seen = True
                 max_la = max(max_la, pulled - completed)
-                if e.startswith(("abort",)):
-                    # after the abort nothing more is measured for this call
-                    pass
+            n_start_batches = sum(1 for e in evs if e.startswith("submit") and " @cb" not in e)
+            if c_during_start == 0 and n_start_batches and max_parked > n_start_batches:
+                bad.append(("C09", "in-flight-exceeds-predispatched", dict(call=cno, max_in_flight=max_parked, predispatched=n_start_batches)))
             strict = (sc.pd + sc.nj) * bmax
             partial = sc.pd + sc.nj * bmax * (1 + c_during_start) + sc.nj * bmax
             if max_la > strict:
@@ -293,7 +336,7 @@ def oracle(sc: Scenario, run: ctl.Run, props):
                 else:
                     bad.append(("C09", pre + "lookahead-exceeds-bound", dict(call=cno, max_lookahead=max_la, strict=strict, partial=partial)))
         # ---- C16 close stops dispatch
-        if cut:
+        if cut and any(e in ("closed", "dropped") for e in evs):
             idx = max(i for i, e in enumerate(evs) if e in ("closed", "dropped"))
             if any(e.startswith("submit") for e in evs[idx + 1:]):
                 bad.append(("C16", "dispatch-after-close", cno))
@@ -304,7 +347,10 @@ def oracle(sc: Scenario, run: ctl.Run, props):
                 for e2 in evs[:i]:
                     if e2.startswith("complete"):
                         done_before |= set(ids_of(e2))
-                if not set(effective) <= done_before:
+                # the run is over once every task completed, or once the generator ran its clean-up after an abort
+                aborts = [j for j, e2 in enumerate(evs[:i]) if e2.startswith("abort")]
+                finalized = bool(aborts) and any(e2 in ("next", "closed", "dropped") for e2 in evs[aborts[-1]:i])
+                if not set(effective) <= done_before and not finalized:
                     bad.append(("C16", "overlapping-call-accepted", dict(call=cno)))
         # everything observed from the first stale-window call on is attributed to that window (finding F17)
         if False and stale_from is not None and cno >= stale_from:
@@ -328,7 +374,14 @@ def promptness_oracle(sc, run):
     in_next = False
     ready_at_next = False
     base = 0
+    failing, b0 = set(), 0
+    for c in sc.calls:
+        failing |= {b0 + p for p in c.fail}
+        b0 += c.n
     for e in run.log:
+        if (e.startswith("exec ") and int(e.split()[1]) in failing) or e.startswith("pull-raise"):
+            ready_at_next = False
+            expect = -1  # a failure is being surfaced (C04): promptness no longer applies to this call
         if e.startswith("call "):
             k = int(e.split()[1])
             base = sum(c.n for c in sc.calls[:k])
@@ -361,7 +414,15 @@ def explore(ctx, props, n, salt, focus=None, scenarios=None, driver_prop=None):
                 "(completions delivered at hook points); non-trivial = at least one task and one completion delivered out of "
                 "the default order or a failure/consumer op/second call; distinct by the scenario's integer encoding")
     rng = ctx.rng(salt)
-    scs = scenarios if scenarios is not None else [gen_scenario(rng, focus, big=ctx.thorough) for _ in range(n)]
+    if scenarios is not None:
+        scs = scenarios
+    else:
+        scs = []
+        for _ in range(n):
+            sc = gen_scenario(rng, focus, big=ctx.thorough)
+            if rng.random() < 0.3:
+                sc = oracle_only_variant(rng, sc)
+            scs.append(sc)
     runs = []
     for sc in scs:
         try:
@@ -370,7 +431,9 @@ def explore(ctx, props, n, salt, focus=None, scenarios=None, driver_prop=None):
         except Exception as e:  # noqa: BLE001  (the harness itself must not crash the check)
             r, err = None, f"{type(e).__name__}: {e}"
         runs.append((r, err))
-    replies = core.Driver(driver_prop or ctx.prop).run([sc.line() for sc in scs])
+    comparable = [sc for sc in scs if not sc.oracle_only()]
+    reps = iter(core.Driver(driver_prop or ctx.prop).run([sc.line() for sc in comparable]))
+    replies = [None if sc.oracle_only() else next(reps) for sc in scs]
     for sc, (r, err), rep in zip(scs, runs, replies):
         res.evaluations += 1
         case = sc.to_json()
@@ -378,7 +441,10 @@ def explore(ctx, props, n, salt, focus=None, scenarios=None, driver_prop=None):
             res.fail("harness-run-crashed:" + err.split(":")[0], case, err)
             continue
         line = " | ".join(r.log)
-        res.traces_validated += 1
+        if rep is None:
+            res.count("oracle-only-scenarios")
+        else:
+            res.traces_validated += 1
         res.count(f"ra={sc.ra}")
         res.count("pd=" + ("all" if sc.pd_mode == 1 else "expr" if sc.pd_mode == 2 else "int"))
         res.count("calls=%d" % len(sc.calls))
@@ -392,7 +458,7 @@ def explore(ctx, props, n, salt, focus=None, scenarios=None, driver_prop=None):
         if nontriv:
             res.nontrivial.add(sc.line())
         res.sample(dict(scenario=sc.line(), log=line[:600]), cap=3)
-        if rep != line:
+        if rep is not None and rep != line:
             # first differing event
             a, b = line.split(" | "), rep.split(" | ")
             k = next((i for i in range(min(len(a), len(b))) if a[i] != b[i]), min(len(a), len(b)))
@@ -463,6 +529,8 @@ def run_prop(ctx, prop, focuses):
     if ctx.thorough:
         out = explore_sharded(ctx, {prop}, 60000, "thorough", focuses)
         instr_sweep(ctx, out, {prop}, 10**9)
+        if prop in ("C01", "C09"):
+            autobatch_probe(ctx, out, {prop}, 20000, prop)
         if prop in ("C01", "C04", "C09"):
             from . import m1_threads
             m1_threads.probe(ctx, out, {prop}, 80)
@@ -470,6 +538,8 @@ def run_prop(ctx, prop, focuses):
     rs = [explore(ctx, {prop}, 2400 // len(focuses), f"quick-{f}", f) for f in focuses]
     out = merge(rs)
     instr_sweep(ctx, out, {prop}, 150)
+    if prop in ("C01", "C09"):
+        autobatch_probe(ctx, out, {prop}, 400, prop)
     if prop in ("C01", "C04", "C09"):
         from . import m1_threads
         m1_threads.probe(ctx, out, {prop}, 12)
@@ -520,3 +590,75 @@ def instr_sweep(ctx, res, props, per_base):
                     res.nontrivial.add(("instr", bi, k, how))
                 for p, sig, detail in oracle(sc, r, props) + [x for x in promptness_oracle(sc, r) if x[0] in props]:
                     res.fail(sig, sc.to_json(), dict(detail=detail, fired=r.instr_fired, log=" | ".join(r.log)[:1500]))
+
+
+# ------------------------------------------------------------------ the source of the batch sizes: AutoBatchingMixin
+
+
+def autobatch_probe(ctx, res, props, n, driver_prop):
+    """M1 takes the values of `compute_batch_size()` as a script with every value >= 1.  This validates that
+    hypothesis (and the 'at most doubles' growth used by the C09 bound) on the real AutoBatchingMixin, and ties the
+    Lean model JoblibModel/AutoBatch.lean to it: random compute/batch_completed sequences, exact rational durations."""
+    from fractions import Fraction
+    from types import SimpleNamespace
+    core.use_repo()
+    from joblib._parallel_backends import AutoBatchingMixin
+
+    class B(AutoBatchingMixin):
+        pass
+
+    rng = ctx.rng("autobatch")
+    lines, expected, cases = [], [], []
+    for _ in range(n):
+        b = B()
+        b.parallel = SimpleNamespace(verbose=0, _print=lambda *_: None)
+        ops, outs, toks = [], [], ["AB"]
+        eff_exact, dur_exact = 1, Fraction(0)
+        fragile = False
+        for _ in range(rng.randint(1, 30)):
+            if rng.random() < 0.45:
+                # margins: would the float computation sit on a boundary of the exact one?
+                d = dur_exact
+                if d > 0:
+                    for thr in (Fraction(1, 5), Fraction(2)):
+                        if abs(d - thr) < Fraction(1, 10**6):
+                            fragile = True
+                    q = Fraction(eff_exact, 5) / d
+                    if abs(q - round(q)) < Fraction(1, 10**6):
+                        fragile = True
+                old = b._effective_batch_size
+                v = b.compute_batch_size()
+                ops.append("c")
+                outs.append(v)
+                toks.append("c")
+                if v < 1 and ("C01" in props or "C09" in props):
+                    res.fail("backend-contract:auto-batch-size-below-one", dict(ops=list(ops)), dict(returned=v))
+                if v > 2 * max(old, 1) and "C09" in props:
+                    res.fail("backend-contract:auto-batch-size-more-than-doubles", dict(ops=list(ops)), dict(old=old, returned=v))
+                if v != eff_exact:
+                    dur_exact = Fraction(0)
+                eff_exact = v
+            else:
+                bs = rng.choice([b._effective_batch_size] * 4 + [1, 2, 3])
+                ms = rng.choice([1, 5, 20, 50, 90, 150, 199, 201, 400, 900, 1500, 1999, 2001, 3000, 8000, 20000])
+                dur = Fraction(ms, 1000)
+                b.batch_completed(bs, ms / 1000)
+                ops.append(f"d {bs} {ms}ms")
+                toks += ["d", str(bs), str(ms), "1000"]
+                if bs == eff_exact:
+                    dur_exact = dur if dur_exact == 0 else Fraction(4, 5) * dur_exact + Fraction(1, 5) * dur
+        res.evaluations += 1
+        if fragile:
+            res.count("autobatch-skipped-float-boundary")
+            continue
+        res.count("autobatch-sequences")
+        if any(o != 1 for o in outs):
+            res.nontrivial.add(("autobatch", tuple(ops)))
+        lines.append(" ".join(toks))
+        expected.append(" ".join(map(str, outs)))
+        cases.append(ops)
+    if lines:
+        for rep, exp, ops in zip(core.Driver(driver_prop).run(lines), expected, cases):
+            res.traces_validated += 1
+            if rep != exp:
+                res.diverge("auto-batch-sizes", dict(ops=ops), exp, rep)
